@@ -35,6 +35,23 @@ def grid(tier, seed):
             sfixed.append(c)
     for (t, s, es, d, ed) in sfixed:
         calls.append('s2s<%s, %s, %d, %s, %d>(rng);' % (TAGS[t], CT[s], es, CT[d], ed))
+    # the tag in the representation (rounding_integer under scaled_integer): every tag x signed/unsigned x width
+    wfixed = [('nrst', 'u8', -4, 'u8', 0), ('nrst', 'u16', -4, 'u16', 0), ('nrst', 'u32', -4, 'u32', 0), ('nrst', 'u64', -4, 'u64', 0),
+              ('tpi', 'u32', -4, 'u32', 0), ('tpi', 'u32', -1, 'u32', 0), ('tpi', 'u64', -8, 'u64', -3), ('tpi', 'i32', -4, 'i32', 0), ('tpi', 'i64', -5, 'i64', 0),
+              ('ninf', 'i16', -8, 'i8', -1), ('ninf', 'u32', -6, 'u16', 0), ('nrst', 'i8', -7, 'i8', -2), ('nrst', 'i32', -16, 'i16', -2), ('nrst', 'i64', -30, 'i32', 0),
+              ('tpi', 'u8', -3, 'u8', 0), ('tpi', 'i16', -8, 'i16', -4), ('nat', 'i16', -8, 'i16', -4), ('nat', 'u32', -8, 'u32', 0),
+              ('nrst', 'i16', -4, 'i32', -8), ('tpi', 'u8', 0, 'u16', -4), ('ninf', 'i32', 2, 'i32', 0)]
+    k = 4 if tier == 'quick' else 40
+    while len(wfixed) < 21 + k:
+        t = rnd.choice(list(TAGS)); s = rnd.choice(reps); d = rnd.choice(reps)
+        es = rnd.choice([-28, -20, -16, -12, -8, -4, -2]); ed = es + rnd.choice([1, 2, 3, 5, 8, 12])
+        if ed - es >= min(int(s[1:]), 31) - 1:
+            continue
+        c = (t, s, es, d, ed)
+        if c not in wfixed:
+            wfixed.append(c)
+    for (t, s, es, d, ed) in wfixed:
+        calls.append('w2w<%s, %s, %d, %s, %d>(rng);' % (TAGS[t], CT[s], es, CT[d], ed))
     # plain integer -> coarser scaled, scaled -> plain integer
     for (t, s_, d, ed) in [('ninf', 'i32', 'i32', 2), ('nrst', 'i16', 'i16', 3), ('tpi', 'i8', 'i8', 3), ('ninf', 'i16', 'i8', 5),
                            ('nrst', 'i32', 'i16', 10), ('tpi', 'u16', 'u16', 4), ('ninf', 'i64', 'i64', 20), ('nat', 'i16', 'i16', 2)]:
